@@ -171,6 +171,7 @@ def focused(tier):
     out += noserver_upstream_block(tier)
     out += sched_preempt_two_upstream(tier)
     out += sched_preempt_chain(tier)
+    out += mixed_tandem(tier)
     return out
 
 
